@@ -18,7 +18,7 @@ def stats(lines):
 
 
 def run_property(ctx, cfg, n_quick, n_thorough, rule, concrete, assumptions, nontrivial=None,
-                 extra_lines=None, post=None, known_classes=None):
+                 extra_lines=None, post=None, known_classes=None, search=None):
     """concrete(sr, i, k, cls, diffinfo) -> note or None : is the disagreement of case i at op k, classified cls
     (dict frame/formula/cov/other + clipdiff/idlediff/panic), a concrete failing input of THIS property?
     post(ctx, sr): extra oracles evaluated on all cases. known_classes(model_err) -> known-finding label or None."""
@@ -34,7 +34,7 @@ def run_property(ctx, cfg, n_quick, n_thorough, rule, concrete, assumptions, non
     except sc.ImplDied as e:
         ctx.violation("impl-died", str(e), "the implementation aborted or hung on this case")
         return core.finish(ctx, rule=rule, evaluations=len(lines))
-    evaluate(ctx, sr, concrete, post, known_classes)
+    evaluate(ctx, sr, concrete, post, known_classes, search)
     nt = nontrivial or default_nontrivial
     distinct = len(set(" ".join(sr.cases[i].split()[2:]) for i in range(len(lines)) if nt(sr, i)))
     st = stats(lines)
@@ -77,7 +77,7 @@ def diff_info(sr, i, k):
     return info
 
 
-def evaluate(ctx, sr, concrete, post=None, known_classes=None):
+def evaluate(ctx, sr, concrete, post=None, known_classes=None, search=None):
     mism = [(i, sr.first_diff(i)) for i in range(len(sr.cases))]
     mism = [(i, k) for i, k in mism if k is not None]
     ctx.cov["disagreements"] = len(mism)
@@ -111,6 +111,8 @@ def evaluate(ctx, sr, concrete, post=None, known_classes=None):
                           note, k, scene.split_ops(sr.aug[i])[1][k][:80],
                           sr.impl[i][k].raw[:300] if k < len(sr.impl[i]) else "-",
                           sr.model[i][k].raw[:300] if k < len(sr.model[i]) else "-"))
+    elif search and search(ctx, sr, mism):
+        pass        # the directed search turned the broken correspondence into a failing input of this property
     else:
         i, k = min(mism, key=lambda t: len(sr.aug[t[0]]))
         ctx.violation("corr-%s" % sr.cases[i].split()[1],
